@@ -17,8 +17,9 @@ func sidNum(s string) int {
 	return -1
 }
 
-func producerProjection(*arrow_record.Producer) []any { return []any{} }
-func consumerProjection(*arrow_record.Consumer) []any { return []any{} }
-func producerNext(*arrow_record.Producer) int         { return 0 }
-func consumerIDs(*arrow_record.Consumer) []string     { return nil }
-func consumerOpenIDs(*arrow_record.Consumer) []string { return nil }
+func producerProjection(*arrow_record.Producer) []any         { return []any{} }
+func consumerProjection(*arrow_record.Consumer) []any         { return []any{} }
+func producerNext(*arrow_record.Producer) int                 { return 0 }
+func consumerIDs(*arrow_record.Consumer) []string             { return nil }
+func consumerOpenIDs(*arrow_record.Consumer) []string         { return nil }
+func consumerStates(*arrow_record.Consumer) map[string]string { return map[string]string{} }
